@@ -238,6 +238,7 @@ pub fn run(ctx: &Ctx) {
     let mut pk = Vec::new();
     for len in 0..=60usize { for g in [false, true] { pk.push(PkCase::Blob { seed: ctx.seed ^ len as u64, len, good_checksum: g }); } }
     for pos in 0..48 { for ch in ['A', 'z', '0', '+', '/', '=', '-', '_', ' ', '\t', 'é', '\n'] { pk.push(PkCase::Replace { seed: ctx.seed, pos, ch }); } }
+    for k in 0..60u8 { let mut raw = [k; 32]; raw[3] = 0xfb; raw[7] = 0xff; let g = kspec::encode_public_key(&raw); if g.contains('+') || g.contains('/') { pk.push(PkCase::Str { s: g.replace('+', "-").replace('/', "_") }); pk.push(PkCase::Str { s: g.replace('/', "_") }); } }
     let good = kspec::encode_public_key(&[9u8; 32]);
     for s in [format!("{}=", good), format!("{}==", good), format!(" {}", good), format!("{} ", good), format!("{}\n", good), format!("{}AAAA", good), good[..47].to_string(), good.clone(), String::new()] { pk.push(PkCase::Str { s }); }
     ctx.sse_vec("public_key_strings", "blob lengths 0..=60 x checksum good/bad; 48 positions x 12 replacement characters; padding/whitespace/extension variants", pk, check_pk);
